@@ -160,6 +160,39 @@ def make_nodata(frontend, framing, fc):
     return nodata
 
 
+def make_subfn(frontend, framing, fc, sub):
+    """requests that are dispatched on a sub-function / MEI type (diagnostics fc 8, encapsulated interface fc 43): exactly
+    one response, carrying the request's transaction id, unit id and function code (or that code | 0x80)"""
+    def subfn(t: bytes, u: int, d: bytes) -> bool:
+        assume(len(t) == 2 and len(d) == 2)
+        assume(1 <= u <= 247)
+        slave = SL.small_context()
+        ctx = SL.server_context(slave, single=True)
+        if fc == 8:
+            pdu = bytes([8, sub // 256, sub % 256, d[0], d[1]])
+        else:
+            assume(1 <= d[0] <= 4)
+            assume(d[1] <= 6)
+            pdu = bytes([43, sub, d[0], d[1]])
+        r = SL.drive(frontend, framing, ctx, [adu.ref_adu_clean(framing, pdu, u, t)])
+        from pymodbus.device import ModbusControlBlock
+        ModbusControlBlock().ListenOnly = False
+        if r.escaped is not None or r.twisted_dropped is not None:
+            explain("exception escaped: %r", r.escaped or r.twisted_dropped)
+            return False
+        if len(r.written) != 1:
+            explain("%d frames written for one fc %d / sub-function %d request", len(r.written), fc, sub)
+            return False
+        w = r.written[0]
+        if framing == "tcp":
+            ok = w[0:2] == t and w[6] == u and (w[7] == fc or w[7] == fc + 0x80)
+            if not ok:
+                explain("response header %r for a request with fc %d, unit %r", w[0:8], fc, u)
+            return ok
+        return w[0] == u and (w[1] == fc or w[1] == fc + 0x80)
+    return subfn
+
+
 class _Failing(object):
     """a datastore whose every access raises"""
     zero_mode = True
@@ -230,6 +263,11 @@ def obligations(tier):
         if fe in ("sync-tcp", "sync-serial", "asyncio-tcp"):
             out.append(Obl("after-broadcast.%s.%s" % (fe, fr), make_after_broadcast(fe, fr), timeout=T, contracts=CONTRACTS[fr], lemmas=LEMMAS[fr],
                            bounds="%s front-end with broadcast_enable: a unit-0 write then an FC3 request to the hosted unit on the same connection (two reads); contents symbolic" % fe))
+        if fe in ("sync-tcp", "twisted-tcp", "asyncio-udp") or tier != "quick":
+            subs = [(8, k) for k in ((0, 1, 10, 13, 14, 20) if tier == "quick" else tuple(range(0, 4)) + tuple(range(10, 22)))] + [(43, 14)] + ([(43, 13)] if tier != "quick" else [])
+            for sfc, sub in subs:
+                out.append(Obl("subfn.%s.%s.fc%d.sub%d" % (fe, fr, sfc, sub), make_subfn(fe, fr, sfc, sub), timeout=T, contracts=CONTRACTS[fr], lemmas=LEMMAS[fr],
+                               bounds="%s front-end, %s framing: one request with function code %d, sub-function / MEI type %d, data symbolic: one response with the request's ids and function code" % (fe, fr, sfc, sub)))
         for nfc in ((7, 17) if tier == "quick" else (7, 11, 12, 17)):
             out.append(Obl("nodata.%s.%s.fc%d" % (fe, fr, nfc), make_nodata(fe, fr, nfc), timeout=T, contracts=CONTRACTS[fr], lemmas=LEMMAS[fr],
                            bounds="%s front-end, %s framing: a request that is the bare function code %d; tid and unit symbolic" % (fe, fr, nfc)))
